@@ -299,6 +299,38 @@ def r_set(chk, prog, m):
                         (w.entails(st, final_len + const(1) - st.cap["idata"]))
             if not ok:
                 R["C11.R5"][1].append((i, "representation invariant not re-established on success (final len %r)" % (final_len,)))
+            # the terminator: a zero byte stored at [length] of the buffer that is active under the final length
+            R["C11.R5"][0] += 1
+            if isinstance(final_len, Lin):
+                act, want_off = None, None
+                if w.entails(st, final_len + const(1)):
+                    act = uni[1] if isinstance(uni, tuple) and uni and uni[0] == "alloc" else (uni.base if isinstance(uni, Ptr) else None)
+                    want_off = final_len.scale(-1)
+                elif w.entails(st, final_len.scale(-1)):
+                    act, want_off = "idata", final_len
+                if act is None:
+                    UND["C11.R5"].append((i, "the sign of the stored length is not decided on this path"))
+                else:
+                    term = False
+                    for e in st.events:
+                        if e[0] == "bufstore" and isinstance(e[1], Ptr) and e[1].base == act and e[2].ops[0].kind == "int" and e[2].ops[0].v == 0:
+                            diff = e[1].off - want_off
+                            if w.entails(st, diff) and w.entails(st, diff.scale(-1)):
+                                term = True
+                    direct = [e for e in st.events if e[0] == "store" and isinstance(e[1], str) and e[1] not in (UNIP, LENP)
+                              and isinstance(e[2], Lin) and e[2].is_const() and e[2].k == 0]
+                    if not term and direct:
+                        # a zero byte is stored into the inline area through an address computed in place (not through the
+                        # component helper): its offset is not a tracked quantity
+                        UND["C11.R5"].append((i, "a zero byte is stored at %s, an address the model does not resolve to a buffer and an offset"
+                                              % direct[-1][1]))
+                    elif any(e[0] == "loop-writes" for e in st.events) and not term:
+                        UND["C11.R5"].append((i, "bytes are written inside a loop on this path; the terminator store is not itemised"))
+                    elif not term:
+                        R["C11.R5"][1].append((i, "a successful path (%s storage at entry, final length %r) stores no terminating NUL at "
+                                               "[length] of the buffer that is active afterwards (%s): json_object_get_string returns "
+                                               "bytes that are not NUL-terminated at the stored length (path guards %s)"
+                                               % ("separate" if entry_neg else "inline", final_len, act, st.prov)))
         # allocation capacity: malloc(n) result used as destination
         orig_call = w._call
 
